@@ -1192,7 +1192,8 @@ func (p *PairV2) orderSellLoadToIndex(index int) *Limit {
 	} else {
 		num := index
 		for {
-			orders = append(orders, p.loadSellOrders(p, fromOrder, num+1)...)
+			loaded := p.loadSellOrders(p, fromOrder, num+1)
+			orders = append(orders, loaded...)
 			num = 0
 			if p.hasUnsortedSellOrders() || p.hasDeletedSellOrders() {
 				orders, num = p.updateDirtyOrders(orders, true)
@@ -1203,6 +1204,9 @@ func (p *PairV2) orderSellLoadToIndex(index int) *Limit {
 			lenOrders := len(orders)
 			if lenOrders != 0 && orders[lenOrders-1] != 0 {
 				fromOrder = p.order(orders[lenOrders-1])
+			} else if lenLoaded := len(loaded); lenOrders == 0 && lenLoaded != 0 && loaded[lenLoaded-1] != 0 {
+				// every loaded order was removed in this block: keep reading after the last of them
+				fromOrder = p.order(loaded[lenLoaded-1])
 			} else {
 				break
 			}
